@@ -648,9 +648,11 @@ def pow2_abstract(interp, b):
     pow2(b) >= 1 and pow2(b) > b for b >= 0 (both true of the real function)."""
     if not interp.ctx.valid(b.t >= 0):
         raise Unsupported("2 ** (symbolic exponent not provably non-negative)")
-    interp.ctx.trusted.add("pow2: 2**w for an unbounded symbolic w >= 0 is an uninterpreted function with 2**w >= 1, 2**w > w, 2**0 == 1")
+    interp.ctx.trusted.add("pow2: 2**w for an unbounded symbolic w >= 0 is an uninterpreted function with 2**w >= 1, 2**w > w, exact values for w <= 64")
     t = POW2(b.t)
     interp.ctx.assume(z3.And(t >= 1, t > b.t, (b.t == 0) == (t == 1)))
+    # exact for 0 <= b <= 64 (keeps counter-models realistic), bounded from below beyond
+    interp.ctx.assume(z3.And(*[z3.Implies(b.t == k, t == 2 ** k) for k in range(65)], z3.Implies(b.t > 64, t > 2 ** 64)))
     return ops.mk(t, 1, None, 0)
 
 
